@@ -1,13 +1,204 @@
-"""Kani side (filled in below): scratch rsync of /repo + add-only overlay, harness execution, playback."""
+"""Kani side: scratch rsync of /repo + add-only overlay (child modules #[cfg(kani)] appended to real files),
+harness execution with per-harness cap, concrete playback on failure.
+
+Overlay files live in /verif/kani/*.rs; first line  `//@target <path relative to /repo>`.
+The rest of the file is appended verbatim to (a scratch copy of) that source file.  Nothing in /repo is touched.
+"""
+import concurrent.futures as cf
+import glob
+import os
+import re
+import shutil
+import subprocess
+import time
+
+VERIF = os.path.dirname(os.path.dirname(os.path.abspath(__file__)))
+REPO = os.environ.get("VERIF_REPO", "/repo")
+SCRATCH_ROOT = os.environ.get("VERIF_SCRATCH", "/tmp/verif_kani")
+TARGET_DIR = os.path.join(VERIF, ".cache", "kani_target")
+ENV = dict(os.environ, CARGO_NET_OFFLINE="true")
+
+
+def prepare(pid):
+    """scratch copy of the working tree with all overlays applied; returns path"""
+    dst = os.path.join(SCRATCH_ROOT, pid, "repo")
+    os.makedirs(dst, exist_ok=True)
+    subprocess.run(["rsync", "-a", "--delete", "--exclude", "target", "--exclude", ".git", "--exclude", "html",
+                    "--exclude", "python", REPO + "/", dst + "/"], check=True)
+    applied = []
+    for ov in sorted(glob.glob(os.path.join(VERIF, "kani", "*.rs"))):
+        txt = open(ov).read()
+        m = re.match(r"//@target\s+(\S+)\s*\n", txt)
+        if not m:
+            continue
+        tgt = os.path.join(dst, m.group(1))
+        if not os.path.exists(tgt):
+            return dst, None, f"lost anchor: overlay {os.path.basename(ov)} targets missing file {m.group(1)}"
+        with open(tgt, "a") as f:
+            f.write("\n// ---- appended by /verif/tools/kani_run.py (add-only overlay) ----\n" + txt[m.end():])
+        applied.append(os.path.basename(ov))
+    # crate-level feature gates for loop contracts etc. are not used
+    return dst, applied, None
+
+
+def cleanup(pid):
+    shutil.rmtree(os.path.join(SCRATCH_ROOT, pid), ignore_errors=True)
+
+
+def _run(cmd, cwd, timeout):
+    t0 = time.time()
+    try:
+        p = subprocess.run(cmd, cwd=cwd, env=ENV, capture_output=True, text=True, timeout=timeout)
+        return p.returncode, p.stdout + "\n" + p.stderr, time.time() - t0, False
+    except subprocess.TimeoutExpired as e:
+        out = (e.stdout or b"")
+        err = (e.stderr or b"")
+        if isinstance(out, bytes): out = out.decode(errors="replace")
+        if isinstance(err, bytes): err = err.decode(errors="replace")
+        # make sure no cbmc is left behind
+        subprocess.run(["pkill", "-f", "cbmc.*" + os.path.basename(cwd)], capture_output=True)
+        return 124, out + "\n" + err + "\nTIMEOUT", time.time() - t0, True
+
+
+BASE = ["cargo", "kani", "-Z", "function-contracts", "-Z", "stubbing", "--output-format", "terse",
+        "--target-dir", TARGET_DIR]
+
+
+def run_one(dst, h):
+    cmd = BASE + ["--harness", h["harness"]] + h.get("flags", [])
+    rc, out, wall, to = _run(cmd, dst, h.get("timeout", 600))
+    r = dict(h)
+    out = "\n".join(l for l in out.splitlines() if len(l) < 600)   # drop the multi-kB linker command echo
+    r.update(wall_s=round(wall, 1), output=out[-6000:], cmd=" ".join(cmd))
+    r.setdefault("bound", "")
+    r.setdefault("what", "")
+    if to:
+        r.update(status="undecided", environmental=True, reason=f"timeout after {h.get('timeout', 600)} s (environmental; not counted)")
+    elif "VERIFICATION:- SUCCESSFUL" in out:
+        # vacuity: every kani::cover! must be satisfied
+        cov = re.findall(r"(\d+) of (\d+) cover properties satisfied", out)
+        if cov and any(int(a) < int(b) for a, b in cov):
+            r.update(status="undecided", reason="vacuity guard: unsatisfied cover property")
+        else:
+            r.update(status="ok", reason="")
+    elif "VERIFICATION:- FAILED" in out:
+        failed = re.findall(r"Failed Checks: (.*)", out)
+        unwind_only = failed and all("unwinding assertion" in f for f in failed)
+        if unwind_only:
+            r.update(status="undecided", reason="unwinding assertion failed: the bound of this harness no longer covers the code")
+        else:
+            r.update(status="failed", reason="; ".join(failed[:6]))
+    elif "no harnesses matched" in out or "error: no harnesses" in out.lower():
+        r.update(status="undecided", reason="harness not found (overlay did not compile in?)")
+    elif re.search(r"^error(\[E\d+\])?:", out, re.M):
+        r.update(status="undecided", reason="overlaid crate does not compile: " + " | ".join(x[:200] for x in re.findall(r"^error[^\n]*", out, re.M)[:3]))
+    elif "out of memory" in out.lower() or rc in (137, -9):
+        r.update(status="undecided", environmental=True, reason="out of memory (environmental; not counted)")
+    else:
+        r.update(status="undecided", reason=f"unrecognised Kani outcome rc={rc}")
+    return r
+
+
+def playback(dst, h):
+    """concrete counterexample for a failed harness, replayed natively against the real code"""
+    import sys
+    sys.path.insert(0, os.path.dirname(os.path.abspath(__file__)))
+    import rustlex
+    cmd = BASE + ["--harness", h["harness"], "-Z", "concrete-playback", "--concrete-playback=print"] + h.get("flags", [])
+    rc, out, wall, to = _run(cmd, dst, h.get("timeout", 600) * 2)
+    blocks = re.findall(r"```\n(.*?)```", out, re.S)
+    blocks = [b for b in blocks if "Check for `cover`" not in b]
+    if not blocks:
+        return None
+    blk = blocks[0]
+    m = re.search(r"Test generated for harness `([\w:]+)`", blk)
+    what = re.search(r"Check for `\w+`: (.*)", blk)
+    test = "verif_replay_" + h["harness"]
+    blk = re.sub(r"fn kani_concrete_playback_\w+\(\)", f"fn {test}()", blk)
+    # insert the test into the module that holds the harness (scratch copy only)
+    modpath = m.group(1).split("::")[:-1] if m else []
+    target = None
+    for root, _, files in os.walk(os.path.join(dst, "src")):
+        for fn in files:
+            pth = os.path.join(root, fn)
+            t = open(pth, encoding="utf-8", errors="replace").read()
+            if re.search(r"fn\s+" + re.escape(h["harness"]) + r"\s*\(", t):
+                target = (pth, t)
+    if not target:
+        return None
+    pth, t = target
+    toks = rustlex.lex(t)
+    hi = next(i for i, x in enumerate(toks) if x.kind == "ident" and x.text == h["harness"]
+              and toks[rustlex.prev_code(toks, i - 1)].text == "fn")
+    # enclosing brace
+    depth, j = 0, hi
+    while j >= 0:
+        x = toks[j]
+        if x.kind == "punct" and x.text == "}": depth += 1
+        if x.kind == "punct" and x.text == "{":
+            if depth == 0: break
+            depth -= 1
+        j -= 1
+    close = rustlex.match_close(toks, j)
+    newt = rustlex.untok(toks[:close]) + "\n" + blk + "\n" + rustlex.untok(toks[close:])
+    open(pth, "w").write(newt)
+    env_save = ENV.get("CARGO_TARGET_DIR")
+    ENV["CARGO_TARGET_DIR"] = TARGET_DIR + "_pb"
+    rc2, out2, _, _ = _run(["cargo", "kani", "playback", "-Z", "concrete-playback", "--", test], dst, 1200)
+    if env_save is None:
+        ENV.pop("CARGO_TARGET_DIR", None)
+    tail = "\n".join(l for l in out2.splitlines() if "panicked" in l or l.startswith("test ") or "assertion" in l)[-3000:]
+    return (f"failed check: {what.group(1) if what else ''}\ngenerated test (concrete values chosen by CBMC):\n{blk}\n"
+            f"native replay on the real code (cargo kani playback -- {test}):\n{tail}\n")
 
 
 def run_harnesses(pid, harnesses, jobs=4):
-    return []
+    dst, applied, err = prepare(pid)
+    if err:
+        return [dict(h, status="undecided", reason=err, wall_s=0, bound=h.get("bound", ""), what=h.get("what", "")) for h in harnesses]
+    os.makedirs(TARGET_DIR, exist_ok=True)
+    # build once
+    rc, out, wall, to = _run(BASE + ["--only-codegen"], dst, 1500)
+    if rc != 0:
+        msg = " | ".join(x[:200] for x in re.findall(r"^error[^\n]*", out, re.M)[:4]) or out[-500:]
+        cleanup(pid)
+        return [dict(h, status="undecided", reason="overlaid crate does not build under Kani: " + msg, wall_s=round(wall, 1),
+                     bound=h.get("bound", ""), what=h.get("what", "")) for h in harnesses]
+    with cf.ThreadPoolExecutor(max_workers=jobs) as ex:
+        res = list(ex.map(lambda h: run_one(dst, h), harnesses))
+    for r in res:
+        if r["status"] == "failed":
+            try:
+                r["cex"] = playback(dst, r)
+            except Exception as e:  # playback is best effort
+                r["cex"] = None
+                r["cex_error"] = str(e)
+    cleanup(pid)
+    return res
 
 
 def counterexample_for(pid, obligation, conf):
+    """Verus gave no counterexample: run the Kani harnesses registered for the same function"""
+    fn = obligation.split("::")[-1]
+    hs = [h for h in conf.get("kani", []) if fn in h.get("covers", [])]
+    if not hs:
+        return None
+    res = run_harnesses(pid + "_cex", hs, jobs=2)
+    for r in res:
+        if r["status"] == "failed" and r.get("cex"):
+            return f"harness {r['harness']} ({r.get('bound','')}):\n{r['reason']}\n{r['cex']}"
     return None
 
 
 def write_replay(pid, k):
-    return ""
+    os.makedirs(os.path.join(VERIF, "replay"), exist_ok=True)
+    path = os.path.join(VERIF, "replay", f"{pid}-kani-{k['harness']}.txt")
+    with open(path, "w") as f:
+        f.write(f"property: {pid}\nfailed obligation: kani::{k['harness']}\nengine: Kani 0.68 / CBMC\ncommand: {k['cmd']}\n"
+                f"bound: {k.get('bound','')}\nwhat: {k.get('what','')}\nfailed checks: {k['reason']}\n\n")
+        if k.get("cex"):
+            f.write("---- concrete counterexample, replayed on the real code ----\n" + k["cex"] + "\n")
+        else:
+            f.write("no-failing-input-found: CBMC reported the failed check but concrete playback produced no test\n")
+        f.write("\n---- verifier output (tail) ----\n" + k["output"][-3000:])
+    return path
